@@ -5,8 +5,10 @@
     External behaviour that is NOT rocfl code enters as data:
     - Unicode: a string comes with its characters (UTF-8 bytes of each [char] and
       [char::to_lowercase] of it) and with [str::to_lowercase] / [str::to_uppercase]
-      of the whole string ([ustr]); the code model uses only the bytes and the two
-      whole-string mappings, the specification (LayoutSpec.v) uses the characters;
+      of the whole string ([ustr]); the code model uses the bytes, the two whole-string
+      mappings and - since fix 91d5aeb, for layout 0006 - [char::to_lowercase] of each
+      character (lowercase_chars, rfind_ignore_case); the specification (LayoutSpec.v)
+      uses the characters;
     - the hex digest of the object id under the configured algorithm is an argument. *)
 From Rocfl Require Export Base.Bytes.
 From Rocfl Require Import Generated.Consts.
@@ -19,6 +21,9 @@ Record ustr := mkS { us_chars : list uchar;
                      us_lower : bytes;     (* str::to_lowercase() of the whole string *)
                      us_upper : bytes }.   (* str::to_uppercase() of the whole string *)
 Definition us_bytes (s : ustr) : bytes := List.concat (map u_orig (us_chars s)).
+(** the lower-case forms of the characters, one after the other (no rule that looks at
+    the neighbours of a character, unlike str::to_lowercase with its final sigma) *)
+Definition lower_text (cs : list uchar) : bytes := List.concat (map u_low cs).
 
 (** * Rust [str] primitives used by layout.rs *)
 Definition is_cont (c : ascii) : bool := (128 <=? code c) && (code c <? 192).
@@ -174,7 +179,7 @@ Record rawobj := mkRaw {
 Inductive raw :=
 | RawNone                      (* no config.json: config_bytes = None *)
 | RawObj (o : rawobj)          (* a JSON object; keys the struct does not know are ignored, duplicates not generated *)
-| RawSeq (l : list jv)         (* a JSON array: serde's derived visitor also accepts the positional form *)
+| RawSeq (l : list jv)         (* a JSON array (until fix 8478633 serde's derived visitor read it positionally) *)
 | RawInvalid.                  (* not JSON, any other JSON value, trailing characters *)
 
 (** the deserialised and validated configuration *)
@@ -194,6 +199,8 @@ Definition USIZE_MAX : N := 18446744073709551615.
 Definition USIZE_MOD : N := 18446744073709551616.
 
 Definition no_delim : ustr := mkS [] [] [].
+(** default_delimiter, layout.rs:814-816: ":" (with its case information: no case) *)
+Definition default_delimiter : ustr := mkS [mkU (b ":") (b ":")] (b ":") (b ":").
 
 (** serde field readers.  A present value of the wrong JSON type is an error, also
     null; an unsigned literal above u64::MAX is parsed as a float, hence an error. *)
@@ -224,28 +231,19 @@ Definition get_pad (v : jv) : res bool :=
               else if bytes_eqb (us_bytes s) (b "right") then Ok false else Err
   | _ => Err
   end.
-Definition get_delim (v : jv) : res ustr :=
-  match v with JStr s => Ok s | _ => Err end.                  (* no default: missing field *)
-
-(** positional (array) form: element i is field i of the struct; missing trailing
-    elements take the field-level default, the first field (extension_name, which has
-    no field-level default in any of the five structs) must be there; more elements
-    than fields is an error *)
-Definition nth_jv (l : list jv) (i : nat) : jv := nth i l JAbsent.
-Definition seq_to_obj (e : ext) (l : list jv) : option rawobj :=
-  match l with
-  | [] => None
-  | _ =>
-    match e with
-    | E0002 => if Nat.leb (List.length l) 1 then Some (mkRaw (nth_jv l 0) JAbsent JAbsent JAbsent JAbsent JAbsent JAbsent JAbsent) else None
-    | E0004 => if Nat.leb (List.length l) 5 then Some (mkRaw (nth_jv l 0) (nth_jv l 1) (nth_jv l 2) (nth_jv l 3) (nth_jv l 4) JAbsent JAbsent JAbsent) else None
-    | E0003 => if Nat.leb (List.length l) 4 then Some (mkRaw (nth_jv l 0) (nth_jv l 1) (nth_jv l 2) (nth_jv l 3) JAbsent JAbsent JAbsent JAbsent) else None
-    | E0006 => if Nat.leb (List.length l) 2 then Some (mkRaw (nth_jv l 0) JAbsent JAbsent JAbsent JAbsent (nth_jv l 1) JAbsent JAbsent) else None
-    | E0007 => if Nat.leb (List.length l) 6 then Some (mkRaw (nth_jv l 0) JAbsent (nth_jv l 2) (nth_jv l 3) JAbsent (nth_jv l 1) (nth_jv l 4) (nth_jv l 5)) else None
-    end
+(** delimiter: 0006 has no default (missing field, layout.rs:169-174); 0007 has the serde
+    default ":" (layout.rs:190, fix dec6d3f) *)
+Definition get_delim (v : jv) (dflt : option ustr) : res ustr :=
+  match v with
+  | JAbsent => match dflt with Some d => Ok d | None => Err end
+  | JStr s => Ok s
+  | _ => Err
   end.
 
-(** serde_json::from_slice into the config struct of extension [e] (object form) *)
+(** parse_config, layout.rs:719-729 (fix 8478633): the text is parsed into a
+    serde_json::Value first; anything but a JSON object is refused (so the positional
+    array form of serde's derived visitor is out of reach), then serde_json::from_value
+    into the config struct of extension [e] *)
 Definition parse_obj (e : ext) (o : rawobj) : res cfg :=
   match e with
   | E0002 =>      (* FlatDirectLayoutConfig, layout.rs:125-129: container default *)
@@ -266,11 +264,11 @@ Definition parse_obj (e : ext) (o : rawobj) : res cfg :=
       Ok (mkCfg e nm a ts nt false no_delim true false)))))
   | E0006 =>      (* FlatOmitPrefixLayoutConfig, layout.rs:167-172: both fields required *)
       res_bind (get_ext (r_ext o) None) (fun nm =>
-      res_bind (get_delim (r_delim o)) (fun d =>
+      res_bind (get_delim (r_delim o) None) (fun d =>
       Ok (mkCfg e nm Sha256 3 3 false d true false)))
-  | E0007 =>      (* NTupleOmitPrefixLayoutConfig, layout.rs:185-202 *)
+  | E0007 =>      (* NTupleOmitPrefixLayoutConfig, layout.rs:185-206 *)
       res_bind (get_ext (r_ext o) None) (fun nm =>
-      res_bind (get_delim (r_delim o)) (fun d =>
+      res_bind (get_delim (r_delim o) (Some default_delimiter)) (fun d =>
       res_bind (get_usize (r_ts o)) (fun ts =>
       res_bind (get_usize (r_nt o)) (fun nt =>
       res_bind (get_pad (r_pad o)) (fun p =>
@@ -278,7 +276,9 @@ Definition parse_obj (e : ext) (o : rawobj) : res cfg :=
       Ok (mkCfg e nm Sha256 ts nt false d p rv)))))))
   end.
 
-Definition default_cfg (e : ext) : cfg := mkCfg e e Sha256 3 3 false no_delim true false.
+(** the Default impls (0007: layout.rs:578-589, fix dec6d3f) *)
+Definition default_cfg (e : ext) : cfg :=
+  mkCfg e e Sha256 3 3 false (match e with E0007 => default_delimiter | _ => no_delim end) true false.
 
 (** usize multiplication: debug builds panic on overflow, release builds wrap *)
 Definition usize_mul (dbg : bool) (x y : N) : res N :=
@@ -324,19 +324,16 @@ Definition validate (dbg : bool) (c : cfg) : res cfg :=
       end
   end.
 
-(** StorageLayout::new, layout.rs:44-72 with the five [new] functions 408-602 *)
+(** StorageLayout::new, layout.rs:44-72 with the five [new] functions 411-617 *)
 Definition new (dbg : bool) (e : ext) (r : raw) : res cfg :=
   match r with
   | RawNone =>
       match e with
-      | E0002 | E0003 | E0004 => Ok (default_cfg e)               (* Config::default(), not validated *)
-      | E0006 | E0007 => Err                                      (* "configuration must be specified" *)
+      | E0002 | E0003 | E0004 | E0007 => Ok (default_cfg e)       (* Config::default(), not validated; 0007: layout.rs:599 *)
+      | E0006 => Err                                              (* "configuration must be specified", layout.rs:529-533 *)
       end
   | RawObj o => res_bind (parse_obj e o) (validate dbg)
-  | RawSeq l => match seq_to_obj e l with
-                | Some o => res_bind (parse_obj e o) (validate dbg)
-                | None => Err
-                end
+  | RawSeq _ => Err                                               (* "must be a JSON object", layout.rs:722-726 *)
   | RawInvalid => Err
   end.
 
@@ -369,13 +366,71 @@ Definition map_0003 (c : cfg) (id : ustr) (digest : bytes) : res bytes :=
   else res_bind (str_to lower K_MAX_0003_ENCAPSULATION_LENGTH) (fun head =>
        Ok (path ++ head ++ "-"%char :: digest))).
 
-(** the derived fields of the 0006/0007 extension structs, layout.rs:534-540, 588-594 *)
+(** the derived fields of the 0006/0007 extension structs, layout.rs:536-542, 602-608 *)
 Definition case_matters (d : ustr) : bool := negb (bytes_eqb (us_lower d) (us_upper d)).
+
+(** ** 0006 (since fix 91d5aeb) *)
+(** lowercase_chars, layout.rs:792-794: value.chars().flat_map(char::to_lowercase).collect() *)
+Definition lowercase_chars (s : ustr) : bytes := lower_text (us_chars s).
+(** normalized_delimiter of FlatOmitPrefixLayoutExtension, layout.rs:538-542 *)
+Definition norm_delim_0006 (d : ustr) : bytes := if case_matters d then lowercase_chars d else us_bytes d.
+
+(** rfind_ignore_case, layout.rs:798-812.
+    Inner loop (802-810) over the characters of value[start..]: [lowered] collects their
+    lower-case forms; the first time it is at least as long as the delimiter it is
+    compared with it: equal = found, with the byte length [offset + c.len_utf8()] of the
+    stretch of [value]; otherwise this start is given up ([break]). *)
+Fixpoint ric_inner (delim lowered : bytes) (offset : N) (cs : list uchar) : option N :=
+  match cs with
+  | [] => None
+  | c :: t =>
+      let lowered' := lowered ++ u_low c in
+      if blen delim <=? blen lowered' then
+        if bytes_eqb lowered' delim then Some (offset + blen (u_orig c)) else None
+      else ric_inner delim lowered' (offset + blen (u_orig c)) t
+  end.
+(** Outer loop (799): [for (start, _) in value.char_indices().rev()] tries the starts
+    from the right-most character to the first and returns at the first success.  The
+    inner loops do not depend on each other, so that is: the result of the starts to
+    the right of this character if there is one, else the result at this character.
+    [cs] are the characters from byte [start] on.  (A start is a character boundary by
+    construction: value[start..] cannot panic.) *)
+Fixpoint rfind_ignore_case (cs : list uchar) (start : N) (delim : bytes) : option (N * N) :=
+  match cs with
+  | [] => None
+  | c :: t =>
+      match rfind_ignore_case t (start + blen (u_orig c)) delim with
+      | Some r => Some r
+      | None => match ric_inner delim [] 0 cs with
+                | Some len => Some (start, len)
+                | None => None
+                end
+      end
+  end.
+
+(** FlatOmitPrefixLayoutExtension::map_object_id, layout.rs:552-575: byte index and byte
+    length of the right-most occurrence IN THE ID AS GIVEN, then the slice after it *)
+Definition find_0006 (d id : ustr) : option (N * N) :=
+  if case_matters d then rfind_ignore_case (us_chars id) 0 (norm_delim_0006 d)
+  else match rfind (us_bytes id) (norm_delim_0006 d) with
+       | Some index => Some (index, blen (norm_delim_0006 d))
+       | None => None
+       end.
+Definition strip_prefix_0006 (d id : ustr) : res bytes :=
+  match find_0006 d id with
+  | None => Ok (us_bytes id)
+  | Some (index, length) =>
+      if blen (us_bytes id) =? index + length then Panic
+      else str_from (us_bytes id) (index + length)
+  end.
+
+Definition map_0006 (c : cfg) (id : ustr) : res bytes := strip_prefix_0006 (c_delim c) id.
+
+(** ** 0007: unchanged by fix 91d5aeb (its ids are ASCII, where lower-casing keeps every
+    length): normalized_delimiter = str::to_lowercase of the delimiter (layout.rs:604-608),
+    rfind on the lower-cased id, the index applied to the original id (627-643) *)
 Definition norm_delim (d : ustr) : bytes := if case_matters d then us_lower d else us_bytes d.
 Definition test_id (d id : ustr) : bytes := if case_matters d then us_lower id else us_bytes id.
-
-(** the prefix removal shared by 0006 (layout.rs:550-570) and 0007 (614-632):
-    rfind on the (possibly lower-cased) id, the index applied to the ORIGINAL id *)
 Definition strip_prefix (d id : ustr) : res bytes :=
   match rfind (test_id d id) (norm_delim d) with
   | None => Ok (us_bytes id)
@@ -385,19 +440,17 @@ Definition strip_prefix (d id : ustr) : res bytes :=
       else str_from (us_bytes id) (index + length)
   end.
 
-Definition map_0006 (c : cfg) (id : ustr) : res bytes := strip_prefix (c_delim c) id.
-
 (** format!("{:0>w$}") / format!("{:0<w$}"): fill with '0' up to w chars, never truncate *)
 Definition zeros (k : N) : bytes := replicate (N.to_nat k) "0"%char.
 Definition pad_str (left : bool) (w : N) (s : bytes) : bytes :=
   if w <=? char_count s then s
   else if left then zeros (w - char_count s) ++ s else s ++ zeros (w - char_count s).
 
-(** 0007, layout.rs:606-652.  The guard (layout.rs:608, fix 970818d) wants every BYTE of
+(** 0007, layout.rs:620-666.  The guard (layout.rs:622, fix 970818d) wants every BYTE of
     the id in 0x20..=0x7F; after it every char is one byte, so chars().rev() is the
     reversal of the bytes. *)
 Definition in_0007_range (c : ascii) : bool := (32 <=? code c) && (code c <=? 127).
-(** layout.rs:614-651, what follows the guard *)
+(** layout.rs:628-665, what follows the guard *)
 Definition map_0007_mapped (c : cfg) (id : ustr) : res bytes :=
   res_bind (strip_prefix (c_delim c) id) (fun id_part =>
   let width := c_ts c * c_nt c in
@@ -434,8 +487,47 @@ Definition raw_wf (r : raw) : bool :=
   | RawSeq l => forallb jv_wf l
   | _ => true
   end.
+
+(** ** the case information of delimiter and id is what Unicode / the Rust standard
+    library define (facts about the EXTERNAL input, not about rocfl; the correspondence
+    check evaluates [case_info_ok] on every generated pair and reports a pair that fails it)
+    - [lows_nonempty]: char::to_lowercase yields at least one character;
+    - [caseless_ok] (used only when the delimiter has no case, to_lowercase = to_uppercase):
+      the delimiter's characters are their own lower-case forms, and a character of the
+      id that is not its own lower-case form neither is a character of the delimiter
+      nor has a lower-case form that begins with (or begins) one;
+    - [ascii_lower_ok]: on an ASCII string str::to_lowercase and char::to_lowercase are
+      the ASCII mapping;
+    - [lower_str_ok]: str::to_lowercase is the per-character mapping except for a
+      capital sigma (final-sigma rule), which becomes one of two non-ASCII characters
+      either way. *)
+Definition is_nil (s : bytes) : bool := match s with [] => true | _ => false end.
+Definition lows_nonempty (s : ustr) : bool := forallb (fun u => negb (is_nil (u_low u))) (us_chars s).
+Definition prefix_related (x y : bytes) : bool := starts_with x y || starts_with y x.
+Definition caseless_ok (d id : ustr) : bool :=
+  forallb (fun a => bytes_eqb (u_low a) (u_orig a)) (us_chars d) &&
+  forallb (fun c => bytes_eqb (u_low c) (u_orig c) ||
+                    forallb (fun a => negb (bytes_eqb (u_orig a) (u_orig c)) &&
+                                      negb (prefix_related (u_low c) (u_orig a))) (us_chars d)) (us_chars id).
+Definition ascii_lower_ok (s : ustr) : bool :=
+  if is_ascii (us_bytes s) then
+    bytes_eqb (us_lower s) (List.map to_ascii_lower (us_bytes s)) &&
+    forallb (fun u => bytes_eqb (u_low u) (List.map to_ascii_lower (u_orig u))) (us_chars s)
+  else true.
+Definition lower_str_ok (s : ustr) : bool :=
+  bytes_eqb (us_lower s) (lower_text (us_chars s)) ||
+  (negb (is_ascii (us_lower s)) && negb (is_ascii (lower_text (us_chars s)))).
+Definition unicode_ok (d id : ustr) : bool :=
+  lows_nonempty d && (case_matters d || caseless_ok d id) && ascii_lower_ok id && lower_str_ok d.
+(** only 0006 and 0007 look at the case of anything *)
+Definition case_info_ok (c : cfg) (id : ustr) : bool :=
+  match c_ext c with
+  | E0006 | E0007 => unicode_ok (c_delim c) id
+  | _ => true
+  end.
+
 Definition inputs_ok (c : cfg) (id : ustr) (digest : bytes) : bool :=
-  ustr_wf id && ustr_wf (c_delim c) && digest_ok c digest.
+  ustr_wf id && ustr_wf (c_delim c) && digest_ok c digest && case_info_ok c id.
 (** an ASCII-only string with its (ASCII) case mappings; used by examples and by the
     driver for ASCII inputs *)
 Definition to_ascii_upper (c : ascii) : ascii :=
